@@ -2,7 +2,7 @@
 operand-kind flow through the evaluation actions, refusal checks reached."""
 import ast
 
-from ..astq import is_name, kwarg, returns_of, parse_fixture
+from ..astq import Facts, conds, expand, is_name, kwarg, parse_fixture, returns_of
 from ..callgraph import CallGraph
 from ..core import AnalysisError, norm, walk_local, dotted
 
@@ -38,69 +38,53 @@ INDEX_REASONS = {
 }
 
 
+def _cond_nodes(node, fn):
+    """The conditions of astq.conds(node, fn) parsed back to expression nodes (positive literals)."""
+    out = []
+    for c in conds(node, fn):
+        try:
+            out.append((c, ast.parse(c, mode="eval").body))
+        except SyntaxError:
+            pass
+    return out
+
+
 def conversion_guard(repo, call, fi):
-    """int(x) / float(x): the enclosing test must be a *full* match of x against a purely numeric pattern."""
-    import re as _re
+    """int(x) / float(x): among the conditions under which it runs (nested tests, guard clauses, short-circuits) there must
+    be a *full* match of x against a purely numeric pattern."""
     var = call.args[0].id
-    cur, child = getattr(call, "_parent", None), call
-    while cur is not None and cur is not fi.node:
-        if isinstance(cur, ast.If) and any(child is b or any(child is x for x in ast.walk(b)) for b in cur.body):
-            t = cur.test
-            if isinstance(t, ast.Call) and isinstance(t.func, ast.Attribute) and t.func.attr == "fullmatch":
-                pat = None
-                if norm(t.func.value) == "re" and len(t.args) == 2 and is_name(t.args[1], var) and isinstance(t.args[0], ast.Constant):
-                    pat = t.args[0].value
-                elif len(t.args) == 1 and is_name(t.args[0], var) and isinstance(t.func.value, ast.Name):
-                    try:
-                        v = repo.module_assign(fi.module, t.func.value.id)
-                        if isinstance(v, ast.Call) and norm(v.func) == "re.compile" and isinstance(v.args[0], ast.Constant):
-                            pat = v.args[0].value
-                    except Exception:
-                        pat = None
-                if pat is not None and set(pat) <= set("-?[0-9]+\\.*"):
-                    return f"guarded by a full match of `{var}` against the numeric pattern {pat!r}"
-            return None
-        child, cur = cur, getattr(cur, "_parent", None)
+    for text, t in _cond_nodes(call, fi.node):
+        if isinstance(t, ast.Call) and isinstance(t.func, ast.Attribute) and t.func.attr == "fullmatch":
+            pat = None
+            if norm(t.func.value) == "re" and len(t.args) == 2 and is_name(t.args[1], var) and isinstance(t.args[0], ast.Constant):
+                pat = t.args[0].value
+            elif len(t.args) == 1 and is_name(t.args[0], var) and isinstance(t.func.value, ast.Name):
+                try:
+                    v = repo.module_assign(fi.module, t.func.value.id)
+                    if isinstance(v, ast.Call) and norm(v.func) == "re.compile" and isinstance(v.args[0], ast.Constant):
+                        pat = v.args[0].value
+                except Exception:
+                    pat = None
+            if pat is not None and set(pat) <= set("-?[0-9]+\\.*"):
+                return f"guarded by a full match of `{var}` against the numeric pattern {pat!r}"
     return None
 
 
 def index_guard(n, fn):
-    """A syntactically visible reason why an index / unpack site cannot fail, or None."""
-    txt = norm(n)
+    """A syntactically visible reason why an index / unpack site cannot fail, or None.  Guards are looked up among the
+    conditions under which the site runs (astq.conds), so nesting, guard clauses and short-circuits count alike."""
+    cs = [c for c, _ in _cond_nodes(n, fn)]
     if isinstance(n, ast.Subscript):
-        base, idx = n.value, n.slice
-        if isinstance(base, ast.Call) and isinstance(base.func, ast.Attribute) and base.func.attr == "split" and norm(idx) == "0":
+        base, idx = norm(n.value), norm(n.slice)
+        if isinstance(n.value, ast.Call) and isinstance(n.value.func, ast.Attribute) and n.value.func.attr == "split" and idx == "0":
             return "str.split() always returns at least one element"
-        cur, child = getattr(n, "_parent", None), n
-        while cur is not None and cur is not fn:
-            if isinstance(cur, ast.If) and any(child is b or child in ast.walk(b) for b in cur.body):
-                t = norm(cur.test)
-                if f"{norm(idx)} in {norm(base)}" in t:
-                    return f"guarded by `{t}`"
-                if f"len({norm(base)}) ==" in t or f"len({norm(base)}) >" in t:
-                    return f"guarded by `{t}`"
-            if isinstance(cur, (ast.For, ast.comprehension)):
-                pass
-            child, cur = cur, getattr(cur, "_parent", None)
-        # inside the test itself: `len(x) == 3 and x[0] is None`
-        cur = getattr(n, "_parent", None)
-        while cur is not None and cur is not fn:
-            if isinstance(cur, ast.BoolOp) and isinstance(cur.op, ast.And):
-                for v in cur.values:
-                    if any(n is x for x in ast.walk(v)):
-                        break
-                    if f"len({norm(base)}) ==" in norm(v) or f"len({norm(base)}) >" in norm(v):
-                        return f"guarded by `{norm(v)}` earlier in the same condition"
-            cur = getattr(cur, "_parent", None)
-        # early exit: `if not x: raise ...` before the use
-        for a in ast.walk(fn):
-            if isinstance(a, ast.If) and norm(a.test) == f"not {norm(base)}" and a.body and isinstance(a.body[-1], (ast.Raise, ast.Return)) \
-                    and a.lineno < n.lineno and norm(idx) in ("0", "-1"):
-                return f"the empty case leaves the function first (`if {norm(a.test)}: ...`)"
-        # `x in d` guard in an enclosing loop body / comprehension condition
-        for a in ast.walk(fn):
-            if isinstance(a, ast.If) and f"{norm(idx)} in {norm(base)}" in norm(a.test) and any(n is x for b in a.body for x in ast.walk(b)):
-                return f"guarded by `{norm(a.test)}`"
+        for c in cs:
+            if c == f"{idx} in {base}":
+                return f"guarded by `{c}`"
+            if c.startswith((f"len({base}) == ", f"len({base}) > ", f"len({base}) >= ")):
+                return f"guarded by `{c}`"
+            if c == base and idx in ("0", "-1"):
+                return f"the empty case leaves first (`{c}` holds here)"
         return None
     if isinstance(n, ast.Assign):
         tg = n.targets[0]
@@ -111,9 +95,9 @@ def index_guard(n, fn):
             if fixed <= 1:
                 return "str.split() always returns at least one element"
             sep = norm(v.args[0]) if v.args else None
-            for a in ast.walk(fn):
-                if isinstance(a, ast.If) and f"{norm(v.func.value)}.startswith({sep})" in norm(a.test) and any(n is x for b in a.body for x in ast.walk(b)):
-                    return f"the string starts with the separator (`{norm(a.test)}`), so there are at least two parts"
+            want = f"{norm(v.func.value)}.startswith({sep})"
+            if want in cs:
+                return f"the string starts with the separator (`{want}`), so there are at least two parts"
             return None
         if isinstance(v, ast.Call) and norm(v.func) == "self.resolve":
             return "resolve() returns a priority pair"
@@ -121,9 +105,8 @@ def index_guard(n, fn):
             return "fixed-size tuple"
         # (x,) = seq after explicit length tests on seq
         if isinstance(v, ast.Name):
-            tests = [norm(a.test) for a in ast.walk(fn) if isinstance(a, ast.If)]
-            if any(f"not {v.id}" in t for t in tests) and any(f"len({v.id}) > {fixed}" in t for t in tests):
-                return f"both the empty case and len({v.id}) > {fixed} raise before this point"
+            if v.id in cs and f"len({v.id}) <= {fixed}" in cs:
+                return f"both the empty case and len({v.id}) > {fixed} leave before this point"
         return None
     return None
 
@@ -368,8 +351,10 @@ def run(repo, chk):
     chk.ob("R18.1", "opparse.Location.syntax_error:carries-position", "err.offset = self.start + 1" in t and "return err" in t, se.where,
            "syntax errors carry the offending position")
     ev = repo.func("selector.Evaluator.__call__")
-    t = norm(ev.node)
-    chk.ob("R18.1", "selector.Evaluator.__call__:unknown-operator-is-a-syntax-error", "if action is None:" in t and "raise focus.location.syntax_error(msg)" in t, ev.where,
+    fev = Facts(ev.node)
+    ok = any(t.startswith("raise ") and ".location.syntax_error(" in t and "self.actions.get(key, None) is None" in c for t, c, _ in fev.items) \
+        and all("self.actions.get(key, None) is not None" in c for t, c, n in fev.items if isinstance(n, ast.Call) and t.startswith("self.actions.get(key, None)("))
+    chk.ob("R18.1", "selector.Evaluator.__call__:unknown-operator-is-a-syntax-error", ok, ev.where,
            "an operator shape without a registered action is reported as a located syntax error")
     rs = repo.func("opparse.OperatorPrecedenceTower.resolve")
     chk.ob("R18.1", "opparse.OperatorPrecedenceTower.resolve:unknown-token-is-a-syntax-error", "raise op.location.syntax_error(" in norm(rs.node), rs.where,
